@@ -304,17 +304,37 @@ def fill_fs(simfs, entries, prefix="/"):
             MemoryFS.writebytes(simfs, p, e.get("bytes", "junk").encode("utf8"))
 
 
+def fill_real(root, entries):
+    for e in entries:
+        p = os.path.join(root, e["name"])
+        if e["kind"] == "dir":
+            os.makedirs(p, exist_ok=True)
+            fill_real(p, e.get("entries", []))
+        elif e["kind"] == "file":
+            with open(p, "wb") as fh:
+                fh.write(W["src_bytes"][e["source"]])
+        else:
+            with open(p, "wb") as fh:
+                fh.write(e.get("bytes", "junk").encode("utf8"))
+
+
 # --------------------------------------------------------------------------
 # model of a directory registry
 
 
-def dir_model(d):
+def dir_model(d, case_insensitive=False):
+    """Key -> plasmid of a directory registry.  `case_insensitive` is what the
+    filesystem object itself declares (getmeta()['case_insensitive']): extension
+    patterns are matched under the filesystem's own rule.  The simulated store is
+    case-sensitive; a real OSFS under fs 2.3.1 declares itself case-insensitive
+    on POSIX."""
     exts = d["extensions"]
     keys = {}
     for e in d["entries"]:
         if e["kind"] == "file":
             stem, dot, ext = e["name"].rpartition(".")
-            if dot and stem and ext in exts:
+            ok = ext in exts or (case_insensitive and ext.lower() in [x.lower() for x in exts])
+            if dot and stem and ok:
                 keys[stem] = e["source"]
     return keys
 
@@ -364,10 +384,23 @@ def _run_child(case):
     sim = Sim(case)
     cat = case["catalogue"]
     stores = {}
+    tmpdirs = []
     for d in cat["dirs"]:
-        sfs = make_simfs(sim)
-        fill_fs(sfs, d["entries"])
-        stores[d["id"]] = sfs
+        if case.get("store", {}).get("medium") == "osfs":
+            # real medium: a real directory read through PyFilesystem's OSFS (no simulator control
+            # over listing order or read sizes; fault-free runs only)
+            import tempfile
+            import fs as _fs
+
+            root = tempfile.mkdtemp(prefix="moclo-verif-osfs-", dir=os.path.dirname(W["scratch"]))
+            tmpdirs.append(root)
+            fill_real(root, d["entries"])
+            stores[d["id"]] = _fs.open_fs(root)
+            sim.counts["real-osfs-directory"] += 1
+        else:
+            sfs = make_simfs(sim)
+            fill_fs(sfs, d["entries"])
+            stores[d["id"]] = sfs
 
     real_rs = pkg_resources.resource_stream
 
@@ -391,6 +424,10 @@ def _run_child(case):
             out.append(ev)
     finally:
         pkg_resources.resource_stream = real_rs
+        import shutil
+
+        for t in tmpdirs:
+            shutil.rmtree(t, ignore_errors=True)
     return {"events": out, "counts": dict(sim.counts), "perms": len(sim.perms)}
 
 
@@ -413,7 +450,8 @@ def _do_op(sim, cat, stores, regs, models, op):
             if k == "open_dir":
                 d = next(x for x in cat["dirs"] if x["id"] == op["dir"])
                 regs[r] = FilesystemRegistry(stores[d["id"]], resolve_class(d["base"]), tuple(d["extensions"]))
-                models[r] = {"kind": "dir", "keys": dir_model(d), "dir": d["id"]}
+                ci = bool(stores[d["id"]].getmeta().get("case_insensitive", False))
+                models[r] = {"kind": "dir", "keys": dir_model(d, ci), "dir": d["id"]}
                 ev["result"] = "ok"
             elif k == "embedded":
                 mod, cls, _ = EMBEDDED[op["kind"]]
@@ -844,6 +882,8 @@ def gen_case(spec):
         return case
 
     faulty = bool(spec.get("faulty"))
+    if not faulty and st.random() < 0.12:
+        store["medium"] = "osfs"
     shared_stems = []
     emb_kinds = []
     n_emb = g.choice([0, 0, 1, 1, 2])
@@ -997,6 +1037,7 @@ def coverage_extra(prop, stats, probes):
     return {
         "faults": {"fired": {k[6:]: v for k, v in stats.items() if k.startswith("fired:")}, "faulted_ops": stats.get("faulted_ops", 0), "faulted_ops_raised": stats.get("faulted_op_raised", 0), "faulted_ops_returned_a_value": stats.get("faulted_op_returned", 0)},
         "legal_nondeterminism": {"listings_permuted": stats.get("listing-permuted", 0), "short_reads_dir_files": stats.get("short-read:read", 0), "short_reads_archive": stats.get("short-read:archive-read", 0)},
+        "real_osfs_directories": stats.get("real-osfs-directory", 0),
         "embedded_sweep": {"exhaustive": True, "registries": 5, "note": "every key of every embedded registry is looked up once per check (runs 0-4)"},
     }
 
